@@ -41,6 +41,8 @@ def parse_vspec(path):
             kind = cur[0]
             if kind == "spec":
                 fnspec(unit, cur[1])["spec"] = text
+            elif kind == "assume_std":
+                fnspec(unit, cur[1])["tail_assume"] = text
             elif kind == "loop":
                 fnspec(unit, cur[2])["loops"][cur[1]] = text
             elif kind == "closure":
@@ -173,6 +175,8 @@ def parse_vspec(path):
                 fnspec(unit, a[2] if len(a) > 2 else None)["tries"][a[0]] = a[1]
             elif d == "spec":
                 cur = ("spec", arg or None)
+            elif d == "assume_std":
+                cur = ("assume_std", arg or None)
             elif d == "loop":
                 a = arg.split()
                 cur = ("loop", a[0], a[1] if len(a) > 1 else None)
@@ -454,19 +458,25 @@ HARD_MARKERS = ("not supported", "unsupported", "The verifier does not yet suppo
                 "no function or associated item", "is not satisfied", "cannot use", "not allowed", "must be")
 
 
+VERIF_FAILURE_PREFIXES = (
+    "postcondition not satisfied", "precondition not satisfied", "assertion failed", "invariant not satisfied",
+    "possible arithmetic underflow/overflow", "possible division by zero", "possible bit shift underflow/overflow",
+    "decreases not satisfied", "could not prove termination", "loop invariant not satisfied",
+    "possible truncation", "Resource limit", "unreachable", "constructed value may fail",
+    "cannot show invariant", "failed precondition", "recommendation not met", "possible overflow",
+    "call to non-static function fails", "index out of bounds", "possible out of bounds",
+    "unable to prove post-condition of closure", "unable to prove",
+)
+
+
 def is_verification_failure(d):
     """True when the diagnostic is a failed proof obligation (as opposed to a front-end error)."""
     if d.get("level") != "error":
         return False
     if d.get("code"):
         return False
-    msg = d.get("message", "")
-    pats = ["postcondition not satisfied", "precondition not satisfied", "assertion failed", "invariant not satisfied",
-            "possible arithmetic underflow/overflow", "possible division by zero", "possible bit shift underflow/overflow",
-            "decreases not satisfied", "could not prove termination", "recommendation not met",
-            "unreachable", "may be out of bounds", "loop invariant", "possible truncation", "requires", "Resource limit",
-            "assertion failure", "failed this postcondition", "cannot show", "might not", "constructed value may fail"]
-    return any(p in msg for p in pats)
+    msg = d.get("message", "").strip()
+    return any(msg.startswith(p) for p in VERIF_FAILURE_PREFIXES)
 
 
 def is_rlimit(d):
